@@ -739,3 +739,9 @@ B('C01', 'closedness tested for the schematic table only', THM,
 N('C01', 'closedness test as two loops', THM,
   "        if any(t.is_open() for t in list(inst.values()) + list(inst.var_inst.values())):\n            raise InvalidDerivationException(\"substitution: instantiation by an open term\")\n",
   "        for t in inst.values():\n            if t.is_open():\n                raise InvalidDerivationException(\"substitution: instantiation by an open term\")\n        for t in inst.var_inst.values():\n            if t.is_open():\n                raise InvalidDerivationException(\"substitution: instantiation by an open term\")\n")
+B('C01', 'step argument not tested against the table', THEORY,
+  "                if sig is None:\n                    if seq.args is not None:\n                        raise CheckProofException(\"invalid input to derivation %s: takes no argument\" % seq.rule)\n                elif not isinstance(seq.args, sig):\n                    raise CheckProofException(\"invalid input to derivation \" + seq.rule)\n",
+  "", 'C01.K11', 'argument-fits-signature')
+B('C01', 'rules without argument accept one', THEORY,
+  "                if sig is None:\n                    if seq.args is not None:\n                        raise CheckProofException(\"invalid input to derivation %s: takes no argument\" % seq.rule)\n                elif not isinstance(seq.args, sig):",
+  "                if sig is not None and not isinstance(seq.args, sig):", 'C01.K11', 'argument-fits-signature')
